@@ -9,4 +9,6 @@ require (
 	pgregory.net/rapid v1.3.0
 )
 
+require github.com/x448/float16 v0.8.4 // indirect
+
 replace go.flow.arcalot.io/pluginsdk => /repo
